@@ -174,6 +174,9 @@ Proof.
   eapply Keep_trans; [|apply IH]. destruct (match nth_error _ _ with Some _ => _ | None => _ end); [apply Keep_sched_at|apply Keep_refl].
 Qed.
 
+Lemma Keep_sampled_if b T child now bs w : Keep w (sampled_if b T child now bs w).
+Proof. unfold sampled_if. destruct b; [apply Keep_sampled|apply Keep_refl]. Qed.
+
 Lemma Keep_pull T g i child w : Keep w (pull T g i child w).
 Proof. unfold pull. destruct (_ =? _); [apply Keep_refl|apply Keep_sched_at]. Qed.
 
@@ -272,9 +275,9 @@ Proof.
     + destruct Hd as [Hd|Hd]; [lia|discriminate].
     + apply sched_local_err; auto.
   - destruct (gc_parent (gcfg_at T g)) as [[pg pn]|] eqn:Hp; [|apply sched_local_err; auto].
-    assert (E1 : w_err (sched_local g i (Z.max when (now_of pg w)) w) = w_err w)
+    assert (E1 : w_err (sched_local g i (Z.max (Z.max when (now_of pg w)) (now_of 0 w)) w) = w_err w)
       by (apply sched_local_err; unfold now_of in *; lia).
-    set (w1 := sched_local g i (Z.max when (now_of pg w)) w) in *.
+    set (w1 := sched_local g i (Z.max (Z.max when (now_of pg w)) (now_of 0 w)) w) in *.
     assert (K1 : Keep w w1) by apply Keep_sched_local.
     unfold ok. rewrite E1.
     destruct (w_err w =? 0) eqn:Eok; simpl; auto.
@@ -345,7 +348,7 @@ Proof.
   - destruct (gc_parent _) as [[pg pn]|]; auto using root_cache_sched_local.
   - destruct (gc_parent (gcfg_at T g)) as [[pg pn]|] eqn:Hp; auto using root_cache_sched_local.
     assert (Hg : g <> 0%nat) by (specialize (HT _ _ _ Hp); lia).
-    assert (R1 := root_cache_sched_local g i (Z.max when (now_of pg w)) w R).
+    assert (R1 := root_cache_sched_local g i (Z.max (Z.max when (now_of pg w)) (now_of 0 w)) w R).
     destruct (negb (ok _)); auto.
     match goal with |- root_cache (if ?b then sched_at d T pg pn ?wh ?w2 else _) => assert (R2 : root_cache w2) end.
     { destruct (_ && _); auto. apply root_cache_upd_other; auto. }
@@ -601,7 +604,7 @@ Section CLOCKS.
         by (apply clocks_child_call; auto using NowEq_refl).
       destruct (negb (ok _)); auto.
       match goal with |- clocks_ok T (if negb (ok ?w3) then _ else _) => assert (H3 : clocks_ok T w3) end.
-      { eapply clocks_Keep; [apply Keep_pull|]. eapply clocks_Keep; [apply Keep_sampled|auto]. }
+      { eapply clocks_Keep; [apply Keep_pull|]. eapply clocks_Keep; [apply Keep_sampled_if|auto]. }
       destruct (negb (ok _)); auto. eapply clocks_Keep; [apply Keep_upd_node|auto].
     - eapply clocks_Keep; [apply Keep_start_plain|auto].
   Qed.
@@ -636,7 +639,7 @@ Section LOW.
       by (apply Hev; pose proof (child_gt T HT _ _ E); lia).
     destruct (negb (ok _)); auto.
     match goal with |- now_of g' (if negb (ok ?w3) then _ else _) = _ => assert (E3 : now_of g' w3 = now_of g' w) end.
-    { rewrite (Keep_now _ _ _ (Keep_pull _ _ _ _ _)), (Keep_now _ _ _ (Keep_sampled _ _ _ _ _)); auto. }
+    { rewrite (Keep_now _ _ _ (Keep_pull _ _ _ _ _)), (Keep_now _ _ _ (Keep_sampled_if _ _ _ _ _ _)); auto. }
     destruct (negb (ok _)); auto. rewrite (Keep_now _ _ _ (Keep_upd_node _ _ _ _)); auto.
   Qed.
 
@@ -784,6 +787,10 @@ Section ROOT.
     destruct (negb (ok _)); auto. destruct (c_sos _); auto using root_cache_sched_at, root_cache_upd_node.
   Qed.
 
+  Lemma root_cache_sampled_if b c now bs w : root_cache w -> root_cache (sampled_if b T c now bs w).
+  Proof. intros R. unfold sampled_if. destruct b; auto. revert w R. destruct HT as (HP & _). induction bs as [|x r IH]; intros w R; simpl; auto.
+    apply IH. destruct (match nth_error _ _ with Some _ => _ | None => _ end); auto using root_cache_sched_at. Qed.
+
   Lemma root_cache_sampled c now : forall bs w, root_cache w -> root_cache (sampled T c now bs w).
   Proof.
     destruct HT as (HP & _). induction bs as [|b r IH]; intros w R; simpl; auto.
@@ -797,7 +804,7 @@ Section ROOT.
     destruct (is_nested _) eqn:E; [|apply root_cache_start_plain; auto].
     assert (R1 := Hev (c_child (ncfg_at T g i)) (now_of g w) w (child_not_root _ _ E) R).
     destruct (negb (ok _)); auto.
-    match goal with |- root_cache (if negb (ok ?w3) then _ else _) => assert (R3 : root_cache w3) by (apply root_cache_pull, root_cache_sampled; auto) end.
+    match goal with |- root_cache (if negb (ok ?w3) then _ else _) => assert (R3 : root_cache w3) by (apply root_cache_pull, root_cache_sampled_if; auto) end.
     destruct (negb (ok _)); auto using root_cache_upd_node.
   Qed.
 
@@ -914,7 +921,7 @@ Proof.
   induction d as [|d IH]; intros g i when w; simpl.
   - destruct (gc_parent _) as [[pg pn]|]; [apply ErrEq_set_err|apply ErrEq_sched_local].
   - destruct (gc_parent _) as [[pg pn]|]; [|apply ErrEq_sched_local].
-    assert (K1 := ErrEq_sched_local g i (Z.max when (now_of pg w)) w).
+    assert (K1 := ErrEq_sched_local g i (Z.max (Z.max when (now_of pg w)) (now_of 0 w)) w).
     destruct (negb (ok _)); auto.
     match goal with |- ErrEq w (if ?b then sched_at d T pg pn ?wh ?w2 else _) => assert (K2 : ErrEq w w2) end.
     { destruct (_ && _); auto. eapply ErrEq_trans; eauto. apply ErrEq_upd_g_nodes; reflexivity. }
@@ -1162,7 +1169,7 @@ Qed.
 
 (* ------------------------------------------------------------------ 5. push and pull: the parent is due no later *)
 Definition clamp (T : tcfg) (g : nat) (when : Z) (w : world) : Z :=
-  match gc_parent (gcfg_at T g) with None => when | Some (pg, _) => Z.max when (now_of pg w) end.
+  match gc_parent (gcfg_at T g) with None => when | Some (pg, _) => Z.max (Z.max when (now_of pg w)) (now_of 0 w) end.
 Definition idle (g : nat) (w : world) : bool := g_started (gat g w) && negb (g_evaluating (gat g w)).
 
 Lemma sched_local_slot_le g i when w :
@@ -1186,7 +1193,7 @@ Proof.
   induction d as [|d IH]; intros g i when w g' Hg; simpl.
   - destruct (gc_parent _) as [[pg pn]|]; auto. apply SL; lia.
   - destruct (gc_parent (gcfg_at T g)) as [[pg pn]|] eqn:Hp; [|apply SL; lia].
-    assert (E1 := SL g i (Z.max when (now_of pg w)) w g' ltac:(lia)).
+    assert (E1 := SL g i (Z.max (Z.max when (now_of pg w)) (now_of 0 w)) w g' ltac:(lia)).
     destruct (negb (ok _)); auto.
     match goal with |- gat g' (if ?b then sched_at d T pg pn ?wh ?w2 else _) = _ => assert (E2 : gat g' w2 = gat g' w) end.
     { destruct (_ && _); auto. rewrite gat_upd_other; auto; lia. }
@@ -1204,7 +1211,7 @@ Proof.
     + destruct Hd as [Hd|Hd]; [lia|discriminate].
     + apply sched_local_slot_le; auto.
   - destruct (gc_parent (gcfg_at T g)) as [[pg pn]|] eqn:Hp; [|apply sched_local_slot_le; auto].
-    set (when' := Z.max when (now_of pg w)).
+    set (when' := Z.max (Z.max when (now_of pg w)) (now_of 0 w)).
     assert (S1 : slot_at i (gat g (sched_local g i when' w)) <= when')
       by (apply sched_local_slot_le; auto; unfold now_of in *; lia).
     destruct (negb (ok _)); auto.
@@ -1222,12 +1229,12 @@ Lemma push_arms_owner T (HT : parents_lt T) g i when w pg pn :
   gc_parent (gcfg_at T g) = Some (pg, pn) ->
   w_err w = 0 -> idle g w = true -> now_of g w <= when ->
   (pg < length (w_gs w))%nat -> (pn < length (g_slots (gat pg w)))%nat ->
-  slot_at pn (gat pg (sched_at (length T) T g i when w)) <= clamp T pg (Z.max when (now_of pg w)) w.
+  slot_at pn (gat pg (sched_at (length T) T g i when w)) <= clamp T pg (Z.max (Z.max when (now_of pg w)) (now_of 0 w)) w.
 Proof.
   intros Hp Hok Hidle Hn Lpg Lpn.
   assert (Lg := has_parent_in_range _ _ _ _ Hp).
   destruct (length T) as [|d] eqn:EL; [lia|]. cbn [sched_at]. rewrite Hp.
-  set (when' := Z.max when (now_of pg w)).
+  set (when' := Z.max (Z.max when (now_of pg w)) (now_of 0 w)).
   set (w1 := sched_local g i when' w).
   assert (K1 : Keep w w1) by apply Keep_sched_local.
   assert (E1 : w_err w1 = w_err w) by (apply sched_local_err; unfold now_of in *; lia).
@@ -1283,7 +1290,7 @@ Proof.
   induction d as [|d IH]; intros g i when w; simpl.
   - destruct (gc_parent _) as [[pg pn]|]; [intros x; reflexivity|apply NodesEq_sched_local].
   - destruct (gc_parent _) as [[pg pn]|]; [|apply NodesEq_sched_local].
-    assert (K1 := NodesEq_sched_local g i (Z.max when (now_of pg w)) w).
+    assert (K1 := NodesEq_sched_local g i (Z.max (Z.max when (now_of pg w)) (now_of 0 w)) w).
     destruct (negb (ok _)); auto.
     match goal with |- NodesEq w (if ?b then sched_at d T pg pn ?wh ?w2 else _) => assert (K2 : NodesEq w w2) end.
     { destruct (_ && _); auto. eapply NodesEq_trans; eauto. apply NodesEq_upd_g; reflexivity. }
@@ -1366,3 +1373,43 @@ Lemma repaired_rule_delivers_tick :
   rec_ticks 0 2 (run_nest_rule true boom_ident_case) = [(1, 101); (3, 103); (4, 104)]
   /\ rec_ticks 0 3 (run_nest_rule true boom_ident_case) = [(2, 107)].
 Proof. vm_compute. split; reflexivity. Qed.
+
+(* ---- the repaired clamp: a (nested) schedule request never leaves a slot of a child graph at a time before the
+   ROOT's current time (the engine's time) - whatever clocks lie between, however stale ---- *)
+Lemma sched_local_slot_cases g i when w :
+  slot_at i (gat g (sched_local g i when w)) = when \/ slot_at i (gat g (sched_local g i when w)) = slot_at i (gat g w).
+Proof.
+  unfold sched_local; cbv zeta. destruct (when <? g_now (gat g w)); [right; reflexivity|].
+  destruct (_ || _); [|right; reflexivity].
+  destruct (lt_dec g (length (w_gs w))).
+  - rewrite gat_upd_same; auto. unfold slot_at, g_set_sched, set_nth; simpl.
+    destruct (lt_dec i (length (g_slots (gat g w)))).
+    + left. apply nth_update_same; auto.
+    + right. rewrite update_oob by lia. reflexivity.
+  - right. unfold gat, upd_g; simpl. rewrite update_oob by lia. reflexivity.
+Qed.
+
+Lemma nested_schedule_not_before_root T (HT : parents_lt T) d g i when w pg pn :
+  gc_parent (gcfg_at T g) = Some (pg, pn) ->
+  let w' := sched_at (S d) T g i when w in
+  slot_at i (gat g w') = slot_at i (gat g w) \/ now_of 0 w <= slot_at i (gat g w').
+Proof.
+  intros Hp. cbn [sched_at]. rewrite Hp.
+  set (when' := Z.max (Z.max when (now_of pg w)) (now_of 0 w)).
+  assert (Hlt : (pg < g)%nat) by apply (HT _ _ _ Hp).
+  destruct (sched_local_slot_cases g i when' w) as [E|E].
+  - right.
+    assert (E' : forall x, gat g x = gat g (sched_local g i when' w) -> now_of 0 w <= slot_at i (gat g x))
+      by (intros x Hx; rewrite Hx, E; unfold when'; lia).
+    destruct (negb (ok _)); [apply E'; reflexivity|].
+    match goal with |- _ <= slot_at i (gat g (if ?b then sched_at d T pg pn ?wh ?w2 else _)) =>
+      assert (S2 : slot_at i (gat g w2) = when') end.
+    { destruct (_ && _); auto. unfold slot_at in *. rewrite (gat_upd_proj g_slots); auto. }
+    destruct (g_started _ && negb _); [rewrite sched_at_above; auto|]; rewrite S2; unfold when'; lia.
+  - left.
+    destruct (negb (ok _)); [exact E|].
+    match goal with |- slot_at i (gat g (if ?b then sched_at d T pg pn ?wh ?w2 else _)) = _ =>
+      assert (S2 : slot_at i (gat g w2) = slot_at i (gat g w)) end.
+    { destruct (_ && _); auto. unfold slot_at in *. rewrite (gat_upd_proj g_slots); auto. }
+    destruct (g_started _ && negb _); [rewrite sched_at_above; auto|]; exact S2.
+Qed.
